@@ -4,7 +4,7 @@ import ast
 from ..loader import AnalysisError, norm, walk_shallow
 from ..cfg import build_cfg, node_calls
 from ..flow import Flow, NONE, NOTNONE, TRUE, FALSE, TRUTHY, FALSY, TOP, const, path_key
-from ..util import callee_name, all_calls, arg, need, single_def, names_in, assignments_to
+from ..util import callee_name, all_calls, arg, need, single_def, names_in, assignments_to, stmt_of
 
 FARM = "xyzpy.gen.farming"
 MAN = "xyzpy.manage"
@@ -680,3 +680,97 @@ def loader_errors_rule(ctx, rid, cls="Harvester"):
             else:
                 raise AnalysisError("idiom changed: %s stores `%s` in %s" % (lname, norm(st.value)[:60], attr))
     return rr
+
+
+def complex_netcdf_rule(ctx, rid):
+    """C14.R3: the quantifier includes complex variables; h5netcdf refuses complex dtypes unless the writer is
+    called with invalid_netcdf=True.  Decided on the shape of the code: on the netCDF branch of the function that
+    calls Dataset.to_netcdf, the option is given as True -- unconditionally, or under a test that asks whether the
+    data is complex (and then on the branch where it is)."""
+    rr = ctx.rule(rid, "netCDF writer: complex data is passed to to_netcdf with invalid_netcdf=True (h5netcdf raises on complex dtypes otherwise)", floor=1)
+    prog = ctx.prog
+    m = prog.modules[MAN]
+    sites = []
+    for f in m.all_funcs:
+        for c in walk_shallow(f.node):
+            if isinstance(c, ast.Call) and isinstance(c.func, ast.Attribute) and c.func.attr == "to_netcdf":
+                sites.append((f, c))
+    need(sites, "anchor lost: no Dataset.to_netcdf call in %s" % MAN)
+
+    def complex_test(t):
+        """+1: true when the data is complex, -1: true when it is not, 0: not a complex test"""
+        if isinstance(t, ast.UnaryOp) and isinstance(t.op, ast.Not):
+            return -complex_test(t.operand)
+        txt = norm(t)
+        if "iscomplex" in txt or "complexfloating" in txt or "complex" in txt or ".kind == 'c'" in txt or ".kind in 'c'" in txt:
+            return 1
+        return 0
+
+    for f, c in sites:
+        ctx.touch(f)
+        kw = {k.arg: k.value for k in c.keywords if k.arg}
+        splats = [k.value for k in c.keywords if k.arg is None]
+        if "invalid_netcdf" in kw:
+            v = kw["invalid_netcdf"]
+            if isinstance(v, ast.Constant) and v.value is True:
+                rr.ok("%s: to_netcdf(..., invalid_netcdf=True)" % f.qualname)
+            elif isinstance(v, ast.Constant):
+                rr.bad(ctx.finding(rid, f, c, "to_netcdf is called with invalid_netcdf=%r: complex variables cannot be written with h5netcdf" % (v.value,), construct="invalid_netcdf off"), "option given")
+            else:
+                raise AnalysisError("idiom changed: invalid_netcdf=%s at to_netcdf in %s" % (norm(v), f.qualname))
+            continue
+        need(len(splats) == 1 and isinstance(splats[0], ast.Name), "idiom changed: to_netcdf options in %s" % f.qualname)
+        kname = splats[0].id
+        sets = []
+        for n in walk_shallow(f.node):
+            val = None
+            if isinstance(n, ast.Call) and isinstance(n.func, ast.Attribute) and n.func.attr == "setdefault" and norm(n.func.value) == kname and n.args and isinstance(n.args[0], ast.Constant) and n.args[0].value == "invalid_netcdf":
+                val = n.args[1] if len(n.args) > 1 else ast.Constant(None)
+            elif isinstance(n, ast.Assign) and len(n.targets) == 1 and isinstance(n.targets[0], ast.Subscript) and norm(n.targets[0].value) == kname and isinstance(n.targets[0].slice, ast.Constant) and n.targets[0].slice.value == "invalid_netcdf":
+                val = n.value
+            elif isinstance(n, ast.Call) and isinstance(n.func, ast.Attribute) and n.func.attr == "update" and norm(n.func.value) == kname:
+                for k in n.keywords:
+                    if k.arg == "invalid_netcdf":
+                        val = k.value
+            if val is not None:
+                sets.append((n, val))
+        if not sets:
+            rr.bad(ctx.finding(rid, f, c, "to_netcdf is never given invalid_netcdf=True: a dataset with a complex variable cannot be saved with h5netcdf (the round trip of complex values is part of the property)", construct="invalid_netcdf missing"), "option set")
+            continue
+        good = False
+        for n, val in sets:
+            if not (isinstance(val, ast.Constant) and val.value is True):
+                if isinstance(val, ast.Constant):
+                    continue
+                raise AnalysisError("idiom changed: invalid_netcdf set to %s in %s" % (norm(val), f.qualname))
+            # guards between the function body and the statement: engine tests are the dispatch, a complex test must have the right polarity
+            pol, p, child = None, getattr(n, "_parent", None), n
+            ok = True
+            while p is not None and p is not f.node:
+                if isinstance(p, ast.If):
+                    in_body = any(child is b or child in ast.walk(b) for b in p.body)
+                    ct = complex_test(p.test)
+                    if ct != 0:
+                        if (ct > 0) != in_body:
+                            ok = False
+                            rr.bad(ctx.finding(rid, f, p, "invalid_netcdf=True is set on the branch where the data is NOT complex (`%s`): complex variables reach to_netcdf without it" % norm(p.test), construct="invalid_netcdf polarity"), "polarity")
+                    elif "engine" not in norm(p.test):
+                        raise AnalysisError("idiom changed: invalid_netcdf set under `%s` in %s" % (norm(p.test), f.qualname))
+                elif isinstance(p, (ast.For, ast.While, ast.Try, ast.With)):
+                    raise AnalysisError("idiom changed: invalid_netcdf set inside a %s in %s" % (type(p).__name__, f.qualname))
+                child, p = p, getattr(p, "_parent", None)
+            # the setting must come before the call (same function, earlier line on the same branch structure)
+            if ok:
+                cfg = build_cfg(f.node)
+                a = [x for x in cfg.stmt_nodes() if x.stmt is stmt_of(n)]
+                b = [x for x in cfg.stmt_nodes() if x.stmt is stmt_of(c)]
+                need(a and b, "cfg nodes of the invalid_netcdf setting / to_netcdf call in %s" % f.qualname)
+                if not cfg.can_reach(a[0].id, b[0].id):
+                    rr.bad(ctx.finding(rid, f, n, "invalid_netcdf=True is set where it cannot reach the to_netcdf call", construct="invalid_netcdf order"), "order")
+                    ok = False
+            if ok:
+                good = True
+        if good:
+            rr.ok("%s: %s carries invalid_netcdf=True to to_netcdf when the data is complex" % (f.qualname, kname))
+        elif not rr.findings:
+            rr.bad(ctx.finding(rid, f, c, "invalid_netcdf is never set to True before to_netcdf", construct="invalid_netcdf missing"), "option set")
